@@ -138,7 +138,7 @@ func (w *world) finish2(kind, op string, c int, before uint64, err error, panick
 		res = "ok"
 	}
 	w.debugf("%s: %v", kind, err)
-	if res == "rej" && err != nil && strings.Contains(err.Error(), "failed to update sector") {
+	if res == "rej" && err != nil && w.hadUpdate {
 		// the RHP2 `update` action stores the patched sector under its OLD root, so the commit cannot
 		// find the new root (defect owned by C02/C03); the accounting never ran: not a C10 observation
 		res = "skip"
@@ -162,11 +162,14 @@ func (w *world) doWrite(p vhlib.ParsedLine) {
 	}
 	acts := w.parseActions(p.List("acts"))
 	proof := p.Int("proof") == 1
+	w.hadUpdate = false
 	for _, a := range acts {
 		if a.Type == crhp2.RPCWriteActionUpdate {
 			proof = false // see generator: would crash the host
+			w.hadUpdate = true
 		}
 	}
+	defer func() { w.hadUpdate = false }()
 	rev0 := w.revision(c)
 	settings := w.settings2()
 	remaining := rev0.Revision.WindowEnd - w.node.Chain.Tip().Height
@@ -627,6 +630,7 @@ func (w *world) doRev(p vhlib.ParsedLine) {
 	order := w.fundingOrder(pm.a)
 	outcome := "rej"
 	var spent usage6
+	balBefore := w.have(payment{a: pm.a})
 	panicked, msg := vhlib.Try(func() {
 		s := w.t3.DialStream()
 		defer w.endStream(s)
@@ -650,10 +654,16 @@ func (w *world) doRev(p vhlib.ParsedLine) {
 		outcome = "panic:" + msg
 	}
 	if outcome == "sent" {
-		// decided by the model-independent evidence: was the budget large enough for the cost?
-		if pm.amount.Cmp(w.pt.LatestRevisionCost) >= 0 {
+		// the handler answers nothing after the payment: whether it charged shows in the account
+		// (deposit of a contract payment minus the balance afterwards)
+		in := balBefore
+		if pm.byContract && w.revNum(pm.c) != before {
+			in = in.Add(pm.amount)
+		}
+		out := w.have(payment{a: pm.a})
+		if d, under := in.SubWithUnderflow(out); !under && !d.IsZero() {
 			outcome = "ok"
-			spent = usage6{rpc: w.pt.LatestRevisionCost}
+			spent = usage6{rpc: d}
 		} else {
 			outcome = "rej"
 		}
@@ -669,8 +679,7 @@ type progBuilder struct {
 	data   []byte
 	instrs []crhp3.Instruction
 	costs  []usage6 // usage charged by each instruction (payment precedes the action)
-	stoC   types.Currency
-	collC  types.Currency
+	rcs    []crhp3.ResourceCost // the ResourceCost the executor adds to pe.cost for each instruction
 	final  bool
 	descr  []string
 }
@@ -794,7 +803,6 @@ func (b *progBuilder) add(tok string, pt *crhp3.HostPriceTable, remaining uint64
 		// executeUpdateRegistry charges ReadRegistryCost (rhp/v3/execute.go:518) and books the storage part as RegistryWrite
 		cost = pt.ReadRegistryCost()
 		u = usage6{rpc: cost.Base, rw: cost.Storage, ing: cost.Ingress, egr: cost.Egress}
-		cost.Storage = types.ZeroCurrency
 	case "rr":
 		key := regKey(int(n(0)))
 		var tweak types.Hash256
@@ -805,13 +813,12 @@ func (b *progBuilder) add(tok string, pt *crhp3.HostPriceTable, remaining uint64
 		b.instrs = append(b.instrs, &crhp3.InstrReadRegistry{PublicKeyOffset: po, PublicKeyLength: 48, TweakOffset: to, Version: 1})
 		cost = pt.ReadRegistryCost()
 		u = usage6{rpc: cost.Base, rr: cost.Storage, ing: cost.Ingress, egr: cost.Egress}
-		cost.Storage = types.ZeroCurrency
 	default:
 		return false
 	}
 	b.costs = append(b.costs, u)
+	b.rcs = append(b.rcs, cost)
 	b.descr = append(b.descr, tok)
-	_ = cost
 	return true
 }
 
@@ -949,17 +956,11 @@ func (w *world) doExec(p vhlib.ParsedLine) {
 	if panicked {
 		outcome = "panic:" + msg
 	}
-	// expected storage / collateral cost of the finalised program, from the price table
+	// storage / collateral cost the executor accumulated (pe.cost), from the price table; note that
+	// the registry instructions' "storage" cost is part of it although it is booked as registry usage
 	var stoC, collC types.Currency
-	for i, tok := range b.descr {
-		switch tok[:2] {
-		case "ap":
-			c := pt.AppendSectorCost(remaining)
-			stoC, collC = stoC.Add(c.Storage), collC.Add(c.Collateral)
-		case "st":
-			stoC = stoC.Add(pt.StoreSectorCost(3).Storage)
-		}
-		_ = i
+	for _, rc := range b.rcs {
+		stoC, collC = stoC.Add(rc.Storage), collC.Add(rc.Collateral)
 	}
 	extra := fmt.Sprintf(" fin=%d burn=%s stoc=%s collc=%s htc=%s", fin, cs(burn), cs(stoC), cs(collC), cs(hostTotal))
 	_ = fcBefore
